@@ -22,13 +22,17 @@ var allSpecs = []HarnessSpec{
 	{Prop: "C03", Func: "ZZ_C03_FailStop", Tag: "shape=1", POR: true, Replay: "native", Params: map[string]int{"shape": 1, "__coarse": 1}},
 	{Prop: "C03", Func: "ZZ_C03_FailStop", Tag: "shape=2", POR: true, Replay: "native", Params: map[string]int{"shape": 2, "__coarse": 1}},
 	{Prop: "C03", Func: "ZZ_C03_FailStop", Tag: "shape=3", POR: true, Replay: "native", Params: map[string]int{"shape": 3, "failing": 1, "__coarse": 1}, TParams: map[string]int{"failing": 99}},
+	{Prop: "C03", Pkg: "cmd/task", Func: "ZZ_CLI_ExitStatus", Tag: "group=0", Replay: "native", ReplayPkg: "args", ReplayFunc: "ZZ_CLI_ExitStatus_native", Twin: true, Params: map[string]int{"group": 0}},
+	{Prop: "C13", Pkg: "cmd/task", Func: "ZZ_CLI_ExitStatus", Tag: "group=1", Replay: "native", ReplayPkg: "args", ReplayFunc: "ZZ_CLI_ExitStatus_native", Twin: true, Params: map[string]int{"group": 1}},
 	{Prop: "C04", Func: "ZZ_H_History", Tag: "prop=4", POR: true, Replay: "native", Twin: true, Params: map[string]int{"prop": 4, "steps": 2, "__coarse": 1}, TParams: map[string]int{"steps": 3, "slim": 1}},
 	{Prop: "C04", Func: "ZZ_H_History", Tag: "prop=4,cancelled-by-sibling", POR: true, Replay: "native", Params: map[string]int{"prop": 4, "steps": 2, "sibling_history": 1, "__coarse": 1}},
 	{Prop: "C04", Func: "ZZ_H_History", Tag: "prop=4,killed-part-way", POR: true, Replay: "native", Params: map[string]int{"prop": 4, "steps": 3, "kill_history": 1, "__coarse": 1}, TParams: map[string]int{"two_cmds": 1}},
 	{Prop: "C05", Func: "ZZ_H_Instances", POR: true, Replay: "native", Twin: true, Params: map[string]int{"steps": 3, "__coarse": 1}},
 	{Prop: "C04", Func: "ZZ_H_Instances", POR: true, Replay: "native", Params: map[string]int{"steps": 3, "__coarse": 1}},
 	{Prop: "C05", Func: "ZZ_H_History", Tag: "prop=5", POR: true, Replay: "native", Twin: true, Params: map[string]int{"prop": 5, "steps": 2, "__coarse": 1}, TParams: map[string]int{"steps": 3, "slim": 1}},
+	{Prop: "C05", Func: "ZZ_H_History", Tag: "prop=5,with-status", POR: true, Replay: "native", Params: map[string]int{"prop": 5, "steps": 2, "slim": 1, "status_history": 1, "__coarse": 1}},
 	{Prop: "C12", Func: "ZZ_H_History", Tag: "prop=12", POR: true, Replay: "native", Twin: true, Params: map[string]int{"prop": 12, "steps": 2, "__coarse": 1}, TParams: map[string]int{"steps": 3, "slim": 1}},
+	{Prop: "C03", Func: "ZZ_C03_FailStop", Tag: "shape=6", POR: true, Replay: "native", Params: map[string]int{"shape": 6, "failing": 2, "__coarse": 1}},
 	{Prop: "C03", Func: "ZZ_C03_FailStop", Tag: "shape=5", POR: true, Replay: "native", Params: map[string]int{"shape": 5, "__coarse": 1}},
 	{Prop: "C03", Func: "ZZ_C03_FailStop", Tag: "shape=4", POR: true, Replay: "native", Params: map[string]int{"shape": 4, "failing": 1, "__coarse": 1}},
 	{Prop: "C06", Func: "ZZ_C03_FailStop", Tag: "shape=4", POR: true, Replay: "native", Params: map[string]int{"shape": 4, "failing": 1, "__coarse": 1}},
@@ -44,12 +48,14 @@ var allSpecs = []HarnessSpec{
 	{Prop: "C11", Func: "ZZ_C11_Deferred", Replay: "native", Twin: true},
 	{Prop: "C11", Func: "ZZ_C11_Isolation", Replay: "native", Twin: true},
 	{Prop: "C13", Func: "ZZ_C13_Guards", POR: true, Replay: "native", Twin: true, Params: map[string]int{"__coarse": 1}},
+	{Prop: "C13", Func: "ZZ_C13_SharedGuard", POR: true, Replay: "native", Twin: true, Params: map[string]int{"__coarse": 1}},
 	{Prop: "C14", Func: "ZZ_C14_Defer", POR: true, Replay: "native", Twin: true, Params: map[string]int{"__coarse": 1}},
 	{Prop: "C08", Pkg: "taskfile/ast", Func: "ZZ_C08_DeepCopy", Replay: "native"},
 	{Prop: "C08", Pkg: "taskfile/ast", Func: "ZZ_C08_Merge", Replay: "native"},
 	{Prop: "C08", Pkg: "taskfile/ast", Func: "ZZ_C08_IncludedTwice", Replay: "native", Twin: true},
 	{Prop: "C09", Pkg: "taskfile/ast", Func: "ZZ_C09_Merge", Tag: "siblings", POR: true, Replay: "native", Twin: true, Params: map[string]int{"diamond": 0, "__maporder": 1, "__coarse": 1}},
 	{Prop: "C09", Pkg: "taskfile/ast", Func: "ZZ_C09_Merge", Tag: "diamond", POR: true, Replay: "native", Params: map[string]int{"diamond": 1, "__maporder": 1, "__maporder_scope": 1, "__coarse": 1}},
+	{Prop: "C09", Pkg: "taskfile/ast", Func: "ZZ_C09_Merge", Tag: "deep-diamond", POR: true, Replay: "native", Params: map[string]int{"diamond": 1, "deep": 1, "__maporder": 1, "__maporder_scope": 1, "__coarse": 1}},
 	{Prop: "C09", Pkg: "taskfile", Func: "ZZ_C09_Reader", POR: true, Replay: "native", Twin: true, Params: map[string]int{"__coarse": 1}},
 	{Prop: "C10", Pkg: "", Func: "ZZ_C10_Vars", Replay: "native", Twin: true},
 	{Prop: "C10", Pkg: "", Func: "ZZ_C10_Env", Replay: "native", Twin: true},
@@ -69,6 +75,7 @@ var allSpecs = []HarnessSpec{
 	{Prop: "C18", Func: "ZZ_C18_Kernel", Tag: "shape=2", POR: true, Replay: "native-race", Twin: true, Params: map[string]int{"shape": 2, "failing": 1, "__coarse": 1, "__race": 1}, TParams: map[string]int{"failing": 2}},
 	{Prop: "C18", Func: "ZZ_C18_Kernel", Tag: "shape=1", POR: true, Replay: "native-race", Params: map[string]int{"shape": 1, "failing": 1, "__coarse": 1, "__race": 1}},
 	{Prop: "C18", Func: "ZZ_C18_Deferred", POR: true, Replay: "native-race", Params: map[string]int{"__coarse": 1, "__race": 1}},
+	{Prop: "C18", Func: "ZZ_C18_DynamicVars", POR: true, Replay: "native-race", Twin: true, Params: map[string]int{"__coarse": 1, "__race": 1}},
 	{Prop: "C18", Func: "ZZ_C18_Compile", POR: true, Replay: "native-race", Twin: true, Params: map[string]int{"__coarse": 1, "__race": 1}},
 	{Prop: "C18", Pkg: "internal/output", Func: "ZZ_C17_Prefixed", Tag: "race", POR: true, Replay: "native-race", Params: map[string]int{"maxchunks": 1, "__coarse": 1, "__race": 1}},
 	{Prop: "C18", Pkg: "internal/output", Func: "ZZ_C17_Group", Tag: "race", POR: true, Replay: "native-race", Params: map[string]int{"maxchunks": 1, "__coarse": 1, "__race": 1}},
